@@ -192,31 +192,32 @@ func (i item) String() string { return i.target + ":" + i.fam + "/" + i.key }
 
 // Expect is what the reference model predicts for a case.
 type Expect struct {
-	Fatal      string // "", "conflict", "selfupdate"
-	FatalDesc  string
-	FatalAt    int    // chain position whose response is rejected
-	FatalFam   string // family of the first collision (class key)
-	FatalKey   string // its key (adjustment path)
-	FatalPath  string // "adjust" | "update"
-	FatalDist  int    // chain distance between the colliding plugins
-	FatalTgt   string // target kind of the collision (SELF / T*)
-	Hazard     string // non-empty: shape whose outcome the properties do not fix
-	SpellingMix bool  // the case uses two spellings of one mount destination ("/m2" and "/m2/")
-	Views      []View // create: view shown to chain position i (valid for i <= FatalAt)
-	ReqRes     []map[string]string
-	Final      View
-	AdjRes     map[string]string // expected combined adjustment resources (field -> value)
-	AdjOwner   map[string]int
-	CDI        []string
-	Updates    map[string]map[string]string // target sym -> committed field -> value
-	Touched    map[string]bool              // targets named by any update (even dropped / empty)
-	Dropped    int
-	Releases   int // releases (lone or reset) of an item owned by another plugin
+	Fatal       string // "", "conflict", "selfupdate"
+	FatalDesc   string
+	FatalAt     int    // chain position whose response is rejected
+	FatalFam    string // family of the first collision (class key)
+	FatalKey    string // its key (adjustment path)
+	SelfDups    int    // ignore-failure updates dropped because they list one hugepage size twice
+	FatalPath   string // "adjust" | "update"
+	FatalDist   int    // chain distance between the colliding plugins
+	FatalTgt    string // target kind of the collision (SELF / T*)
+	Hazard      string // non-empty: shape whose outcome the properties do not fix
+	SpellingMix bool   // the case uses two spellings of one mount destination ("/m2" and "/m2/")
+	Views       []View // create: view shown to chain position i (valid for i <= FatalAt)
+	ReqRes      []map[string]string
+	Final       View
+	AdjRes      map[string]string // expected combined adjustment resources (field -> value)
+	AdjOwner    map[string]int
+	CDI         []string
+	Updates     map[string]map[string]string // target sym -> committed field -> value
+	Touched     map[string]bool              // targets named by any update (even dropped / empty)
+	Dropped     int
+	Releases    int // releases (lone or reset) of an item owned by another plugin
 	LoneDelOrig int
 	LoneDelPlug int
-	Resets     int
-	Appenders  map[string]int // hook/rlimit/cdi families: number of plugins appending
-	Contrib    int            // plugins contributing to the adjustment
+	Resets      int
+	Appenders   map[string]int // hook/rlimit/cdi families: number of plugins appending
+	Contrib     int            // plugins contributing to the adjustment
 }
 
 // applyOpsToView applies one plugin's ops to a view (documented semantics: removals first,
@@ -280,8 +281,8 @@ func applyOpsToView(v *View, s Script) {
 func Predict(c Case) *Expect {
 	e := &Expect{FatalAt: -1, AdjRes: map[string]string{}, AdjOwner: map[string]int{}, Updates: map[string]map[string]string{},
 		Touched: map[string]bool{}, Appenders: map[string]int{}}
-	owner := map[item]int{}     // item -> chain position of the owner
-	tainted := map[item]bool{}  // fields named by a dropped ignore-failure update
+	owner := map[item]int{}    // item -> chain position of the owner
+	tainted := map[item]bool{} // fields named by a dropped ignore-failure update
 	var view View
 	if c.Kind == "create" {
 		view = viewOfContainer(origContainer(c, "x"))
@@ -425,6 +426,10 @@ func Predict(c Case) *Expect {
 					conflictField, conflictOwner = f, o
 					break
 				}
+			}
+			if conflictField == "" && u.SelfDup && u.Ignore && hugeField(u) != "" {
+				conflictField, conflictOwner = hugeField(u), pos
+				e.SelfDups++
 			}
 			if conflictField != "" {
 				if u.Ignore {
